@@ -2,9 +2,22 @@
 //! case:   `<kind> <hexsrc> ; <tok>* ; <tok>* ...`
 //! result: `<grammar dump> # <automaton dump> # X… # I <tok>* # O <outcome>` …
 //! outcome (recovery off): `acc <tree>` | `rej <k> <st> nerr=<n> val=<0|1>` | `panic <msg>`
+//!   `# BO <0|1|2> <0|1|2|3>` (right after `# I`): HOW the recovery-off parser of this input was configured and
+//!   run.  First number = the builder's setters: 0 = `.recoverer(None)` only, 1 = `.recoverer(None).term_costs(f)`,
+//!   2 = `.term_costs(f).recoverer(None)` (f non-uniform: 1 + tidx % 5, 255 for every 7th token).  Second number =
+//!   the entry point: 0 = `parse_map`, 1 = `parse_generictree`, 2 = `parse_actions` (actions building the same
+//!   tree), 3 = `parse_noaction` (it returns errors only: when it reports none, the tree printed after `acc` comes from
+//!   `parse_map` on an identically configured builder; a rejected input prints val=0).  Both are INPUTS of the harness,
+//!   functions of (index of the input within the case line, number of lexemes); the `# O` outcome must not depend
+//!   on them (the setters are independent, every entry point runs the same LR loop; the model knows neither).
+//!   The `# OR` (CPCT+) parse always uses `.recoverer(CPCTPlus)` + `parse_map`.
 use gvh::common::*;
 use gvh::util::*;
-use lrpar::{LexParseError, Lexeme, RTParserBuilder, RecoveryKind};
+use cfgrammar::{RIdx, Span};
+use lrpar::parser::AStackType;
+#[allow(deprecated)]
+use lrpar::Node;
+use lrpar::{LexParseError, Lexeme, NonStreamingLexer, RTParserBuilder, RecoveryKind};
 use std::fmt::Write;
 
 pub fn conflicts_dump(st: &lrtable::StateTable<u32>) -> String {
@@ -34,15 +47,87 @@ pub fn conflicts_dump(st: &lrtable::StateTable<u32>) -> String {
     o
 }
 
-pub fn parse_outcome(b: &Built, toks: &[u32], rk: RecoveryKind) -> String {
-    let lexer = ReplayLexer::new(toks.to_vec());
-    let r = catch(std::panic::AssertUnwindSafe(|| {
-        let pb = RTParserBuilder::<u32, LT>::new(&b.grm, &b.st).recoverer(rk);
-        pb.parse_map(
-            &lexer,
-            &|lexeme: Lx| Tree::Term(lexeme.tok_id(), lexeme.span().start(), lexeme.span().len(), lexeme.faulty()),
-            &|ridx, nodes| Tree::Nonterm(u32::from(ridx), nodes),
-        )
+/// the non-uniform cost function handed to `term_costs` (irrelevant with recovery off: that is the point)
+fn odd_costs(t: cfgrammar::TIdx<u32>) -> u8 {
+    let t = usize::from(t);
+    if t % 7 == 6 { 255 } else { 1 + (t % 5) as u8 }
+}
+
+#[allow(deprecated)]
+fn node_to_tree(n: Node<Lx, u32>) -> Tree {
+    match n {
+        Node::Term { lexeme } => mk_term(lexeme),
+        Node::Nonterm { ridx, nodes } => Tree::Nonterm(u32::from(ridx), nodes.into_iter().map(node_to_tree).collect()),
+    }
+}
+
+fn mk_term(lexeme: Lx) -> Tree {
+    Tree::Term(lexeme.tok_id(), lexeme.span().start(), lexeme.span().len(), lexeme.faulty())
+}
+
+type ActDyn<'b, 'input> =
+    dyn Fn(RIdx<u32>, &'b dyn NonStreamingLexer<'input, LT>, Span, std::vec::Drain<AStackType<Lx, Tree>>, ()) -> Tree;
+
+fn tree_action<'b, 'input>(
+    ridx: RIdx<u32>,
+    _lexer: &'b dyn NonStreamingLexer<'input, LT>,
+    _span: Span,
+    args: std::vec::Drain<AStackType<Lx, Tree>>,
+    _param: (),
+) -> Tree {
+    Tree::Nonterm(
+        u32::from(ridx),
+        args.map(|a| match a {
+            AStackType::ActionType(t) => t,
+            AStackType::Lexeme(l) => mk_term(l),
+        })
+        .collect(),
+    )
+}
+
+/// `order`: 0 = `.recoverer(rk)`, 1 = `.recoverer(rk).term_costs(f)`, 2 = `.term_costs(f).recoverer(rk)`;
+/// `entry`: 0 parse_map, 1 parse_generictree, 2 parse_actions, 3 parse_noaction (+ parse_map for the tree of an
+/// input it reports no error for)
+#[allow(deprecated)]
+pub fn parse_outcome_cfg(b: &Built, toks: &[u32], rk: RecoveryKind, order: usize, entry: usize) -> String {
+    let costs = |t: cfgrammar::TIdx<u32>| odd_costs(t);
+    let mk = || {
+        let pb = RTParserBuilder::<u32, LT>::new(&b.grm, &b.st);
+        match order {
+            0 => pb.recoverer(rk),
+            1 => pb.recoverer(rk).term_costs(&costs),
+            _ => pb.term_costs(&costs).recoverer(rk),
+        }
+    };
+    let via_map = || {
+        let lexer = ReplayLexer::new(toks.to_vec());
+        mk().parse_map(&lexer, &|lexeme: Lx| mk_term(lexeme), &|ridx, nodes| Tree::Nonterm(u32::from(ridx), nodes))
+    };
+    let r = catch(std::panic::AssertUnwindSafe(|| match entry {
+        0 => via_map(),
+        1 => {
+            let lexer = ReplayLexer::new(toks.to_vec());
+            let (v, errs) = mk().parse_generictree(&lexer);
+            (v.map(node_to_tree), errs)
+        }
+        2 => {
+            let lexer = ReplayLexer::new(toks.to_vec());
+            let act: &ActDyn = &tree_action;
+            let actions: Vec<&ActDyn> = vec![act; usize::from(b.grm.prods_len())];
+            let pb = mk();
+            let (v, errs) = pb.parse_actions(&lexer, &actions, ());
+            (v, errs)
+        }
+        _ => {
+            let lexer = ReplayLexer::new(toks.to_vec());
+            let errs = mk().parse_noaction(&lexer);
+            if errs.is_empty() {
+                // no value to show: the tree comes from parse_map on an identically configured builder
+                via_map()
+            } else {
+                (None, errs)
+            }
+        }
     }));
     match r {
         Err(m) => format!("panic {}", m.replace('\n', " ").replace('#', "")),
@@ -68,6 +153,10 @@ pub fn parse_outcome(b: &Built, toks: &[u32], rk: RecoveryKind) -> String {
                             if val.is_some() { 1 } else { 0 }
                         )
                         .unwrap();
+                        // recovery off: a repair sequence attached to the error is an outcome difference
+                        if matches!(rk, RecoveryKind::None) && !e.repairs().is_empty() {
+                            write!(o, " repairs={}", e.repairs().len()).unwrap();
+                        }
                     }
                     LexParseError::LexError(_) => o.push_str("lexerr"),
                 }
@@ -75,6 +164,10 @@ pub fn parse_outcome(b: &Built, toks: &[u32], rk: RecoveryKind) -> String {
             o
         }
     }
+}
+
+pub fn parse_outcome(b: &Built, toks: &[u32], rk: RecoveryKind) -> String {
+    parse_outcome_cfg(b, toks, rk, 0, 0)
 }
 
 fn main() {
@@ -97,7 +190,7 @@ fn main() {
         o.push_str(&dump_automaton(&b.grm, &b.sg, &b.st));
         o.push_str(" # ");
         o.push_str(&conflicts_dump(&b.st));
-        for inp in parts {
+        for (idx, inp) in parts.enumerate() {
             // inputs are token NAMES; unknown names make the input unusable (skipped)
             let mut toks: Vec<u32> = Vec::new();
             let mut ok = true;
@@ -114,7 +207,11 @@ fn main() {
             for t in &toks {
                 write!(o, " {}", t).unwrap();
             }
-            write!(o, " # O {}", parse_outcome(&b, &toks, RecoveryKind::None)).unwrap();
+            // builder configuration and entry point of the recovery-off parse: inputs, see the header
+            let order = (idx + toks.len()) % 3;
+            let entry = (idx / 3 + toks.len()) % 4;
+            write!(o, " # BO {} {}", order, entry).unwrap();
+            write!(o, " # O {}", parse_outcome_cfg(&b, &toks, RecoveryKind::None, order, entry)).unwrap();
             if rec {
                 let r = parse_outcome(&b, &toks, RecoveryKind::CPCTPlus);
                 // with recovery on only the first error position is compared (C04)
